@@ -199,7 +199,7 @@ func (cr *checkRun) collectTargets() {
 	sort.Strings(keys)
 	for _, k := range keys {
 		ct := e.specs.contracts[k]
-		if ct.Trusted || !contractHasTag(ct, cr.prop) {
+		if ct.Trusted || ct.Opaque || !contractHasTag(ct, cr.prop) {
 			continue
 		}
 		fns := e.instances(k)
